@@ -170,6 +170,10 @@ pub fn first_last_alpn(s: &str) -> (char, char) {
 
 /// Generate 12-character hash (first 12 chars of SHA256)
 pub fn hash12(input: &str) -> String {
+    // JA4: an empty list is represented by twelve zeros, not by the hash of ""
+    if input.is_empty() {
+        return "000000000000".to_string();
+    }
     format!("{:x}", Sha256::digest(input.as_bytes()))[..12].to_string()
 }
 
